@@ -864,6 +864,11 @@ fn check_facts(n: &SyntaxNode, parent: Option<&SyntaxNode>, in_raw: bool, is_roo
         let p = ch.iter().skip(1).position(|c| !triv(&c)).map(|i| i + 1);
         let ok = ch.first().is_some_and(|c| c.is::<ast::Expr>() && !triv(&c) && c.kind() != K::Dot)
             && p.is_some_and(|p| ch[p].kind() == K::Dot && ch[p + 1..].iter().all(|c| triv(&c) || c.kind() == K::Ident));
+        let n_id = p.map(|p| ch[p + 1..].iter().filter(|c| c.kind() == K::Ident).count()).unwrap_or(0);
+        let field_ok = n.cast::<ast::FieldAccess>().is_some_and(|f| p.is_some_and(|p| ch[p + 1..].iter().any(|c| c.span() == f.field().span())));
+        if n_id != 1 || !field_ok {
+            out.push(format!("PF20: FieldAccess with {n_id} field names behind the dot (field() is one of them: {field_ok})"));
+        }
         if !ok {
             out.push(format!("PF20: FieldAccess with children {:?}", ch.iter().map(|c| c.kind()).collect::<Vec<_>>()));
         }
